@@ -392,68 +392,16 @@ impl World {
     }
 
     pub fn model_of_digest(&self, d: &[WNodeDigest]) -> Value {
-        let mut m = Map::new();
-        for nd in d {
-            m.insert(name_of_wid(&nd.id), json!({"hb": nd.hb, "gc": nd.gc, "max": nd.max}));
-        }
-        Value::Object(m)
+        digest_model(d)
     }
 
     /// Folds an op stream into the per-member delta map, by the documented meaning of the ops.
     pub fn model_of_ops(&self, ops: &[WOp]) -> Value {
-        let mut m = Map::new();
-        let mut cur: Option<(String, Value)> = None;
-        let mut ill = false;
-        for op in ops {
-            match op {
-                WOp::Node { id, gc, from } => {
-                    if let Some((k, v)) = cur.take() {
-                        if m.contains_key(&k) {
-                            ill = true;
-                        }
-                        m.insert(k, v);
-                    }
-                    cur = Some((
-                        name_of_wid(id),
-                        json!({"from": from, "gc": gc, "max": 0, "kvs": []}),
-                    ));
-                }
-                WOp::KV { key, val, ver, st } => match cur.as_mut() {
-                    Some((_, v)) => {
-                        v["kvs"].as_array_mut().unwrap().push(json!({"k": key, "v": self.model_val(val), "ver": ver, "st": st_code_name(*st)}));
-                        v["max"] = json!(ver);
-                    }
-                    None => ill = true,
-                },
-                WOp::SetMax { max } => match cur.as_mut() {
-                    Some((_, v)) => v["max"] = json!(max),
-                    None => ill = true,
-                },
-            }
-        }
-        if let Some((k, v)) = cur.take() {
-            if m.contains_key(&k) {
-                ill = true;
-            }
-            m.insert(k, v);
-        }
-        if ill {
-            m.insert("?illformed".into(), json!(true));
-        }
-        Value::Object(m)
+        ops_model(ops, &|v| self.model_val(v))
     }
 
     pub fn model_of_wmsg(&self, w: &WMsg) -> Value {
-        match w {
-            WMsg::Syn { cluster, digest } => {
-                json!({"t": "Syn", "cluster": cluster, "digest": self.model_of_digest(digest)})
-            }
-            WMsg::SynAck { digest, ops } => {
-                json!({"t": "SynAck", "digest": self.model_of_digest(digest), "delta": self.model_of_ops(ops)})
-            }
-            WMsg::Ack { ops } => json!({"t": "Ack", "delta": self.model_of_ops(ops)}),
-            WMsg::BadCluster => json!({"t": "Bad"}),
-        }
+        wmsg_model(w, &|v| self.model_val(v))
     }
 
     /// Builds wire bytes from a model message (used for adversarial / crafted deliveries).
@@ -650,3 +598,71 @@ impl World {
         r.err().map(panic_text)
     }
 }
+
+// ---- message modelling as free functions (also used by the server-level driver)
+pub fn digest_model(d: &[WNodeDigest]) -> Value {
+    let mut m = Map::new();
+    for nd in d {
+        m.insert(name_of_wid(&nd.id), json!({"hb": nd.hb, "gc": nd.gc, "max": nd.max}));
+    }
+    Value::Object(m)
+}
+
+/// Folds an op stream into the per-member delta map, by the documented meaning of the ops.
+pub fn ops_model(ops: &[WOp], mv: &dyn Fn(&str) -> String) -> Value {
+    let mut m = Map::new();
+    let mut cur: Option<(String, Value)> = None;
+    let mut ill = false;
+    for op in ops {
+        match op {
+            WOp::Node { id, gc, from } => {
+                if let Some((k, v)) = cur.take() {
+                    if m.contains_key(&k) {
+                        ill = true;
+                    }
+                    m.insert(k, v);
+                }
+                cur = Some((
+                    name_of_wid(id),
+                    json!({"from": from, "gc": gc, "max": 0, "kvs": []}),
+                ));
+            }
+            WOp::KV { key, val, ver, st } => match cur.as_mut() {
+                Some((_, v)) => {
+                    v["kvs"].as_array_mut().unwrap().push(json!({"k": key, "v": mv(val), "ver": ver, "st": st_code_name(*st)}));
+                    v["max"] = json!(ver);
+                }
+                None => ill = true,
+            },
+            WOp::SetMax { max } => match cur.as_mut() {
+                Some((_, v)) => v["max"] = json!(max),
+                None => ill = true,
+            },
+        }
+    }
+    if let Some((k, v)) = cur.take() {
+        if m.contains_key(&k) {
+            ill = true;
+        }
+        m.insert(k, v);
+    }
+    if ill {
+        m.insert("?illformed".into(), json!(true));
+    }
+    Value::Object(m)
+}
+
+pub fn wmsg_model(w: &WMsg, mv: &dyn Fn(&str) -> String) -> Value {
+    match w {
+        WMsg::Syn { cluster, digest } => {
+            json!({"t": "Syn", "cluster": cluster, "digest": digest_model(digest)})
+        }
+        WMsg::SynAck { digest, ops } => {
+            json!({"t": "SynAck", "digest": digest_model(digest), "delta": ops_model(ops, mv)})
+        }
+        WMsg::Ack { ops } => json!({"t": "Ack", "delta": ops_model(ops, mv)}),
+        WMsg::BadCluster => json!({"t": "Bad"}),
+    }
+}
+
+
